@@ -8,37 +8,82 @@ What a theorem can carry here:
 1. the *inventory obligation*: `Generated/Effects.lean` is rewritten from /repo's AST on every
    run and lists every call site that can introduce nondeterminism (global numpy RNG, stdlib
    `random`, `DataFrame.sample`, new generators, generator draws, `hash`/`id`, clocks, sets whose
-   iteration order escapes, enumerations of the hash-ordered maps of a `Proteins` object); every entry must be *accounted for* by the rule below;
-2. the order-invariance facts the rule appeals to (proved in C02/C05).
+   iteration order escapes (also sets handed to / returned by other functions of the package), lists and
+   dictionaries whose ORDER was fixed while such a set was enumerated and everything derived from them
+   (`order-taint`), enumerations of the hash-ordered maps of a `Proteins` object (`map-order`), directory
+   listings (`dir-order`), lists that joblib workers append to (`thread-order`), uses of dictionary values that
+   were made by enumerating a set (`map-value`)); every entry must be
+   *accounted for* by the rule below;
+2. the order-invariance facts the rule appeals to (proved in C02/C05/C15/C16, and in `Props/C08Order.lean` for
+   dictionaries filled while a set is enumerated);
+3. the threading of the seeded generator through `brew` (`Props/C08Rng.lean`).
 Bit-identity of numpy/sklearn/BLAS computations is established by differential execution only.
 -/
 namespace Mk
 open Mk.Generated
 
-/-- the enumerations of unordered sets, site by site (function, what is enumerated), each with the
+/-- the enumerations of unordered sets, site by site (function, what is enumerated — for `list(set(..) ..)`
+the text of the whole set expression, a repeated entry of one function carries an ordinal `#n`), each with the
 theorem or argument showing that the enumeration order cannot influence any result -/
 def orderInvariantSites : List (String × String × String) :=
-  [ ("make_train_sets", "list", "C02_train_disjoint, C02_materialise_eq: the training rows are re-ordered by the index list"),
-    ("get_rows_from_dataframe", "list", "C02_materialise_chunks: any order inside and between pieces"),
-    ("drop_missing_values_and_fill_spectra_dataframe", "list", "set difference of column names, used for membership only (C10)"),
+  [ ("make_train_sets", "list:set(range(k, k + chunk_range)) - set(idx)", "sets of ints: CPython hashes an int to itself, the enumeration does not depend on PYTHONHASHSEED; C02_train_disjoint, C02_materialise_eq: the training rows are re-ordered by this index list"),
+    ("make_train_sets", "list:set(range(k, ds)) - set(idx)", "as above (last block of the file)"),
+    ("get_rows_from_dataframe", "list:set(train) & set(chunk.index)", "C02_materialise_chunks: any order inside and between pieces (and ints again)"),
+    ("drop_missing_values_and_fill_spectra_dataframe", "list:set(column) - set(spectra)", "fixes the COLUMN ORDER of the missing-value mask; everything derived from it is inventoried as `order-taint` (the list of features to drop), and that list is used for membership and log lines only (C10)"),
+    ("_group_proteins", "for:peps", "`set.intersection(*[peptides[p] for p in peps])`: intersection is commutative and associative"),
     ("_group_proteins", "for:matches", "C16_order_independent: the grouping is invariant under every enumeration of every `matches` set"),
+    ("_group_proteins", "for:matches#2", "C16_order_independent (the loop that creates the merged groups)"),
+    ("_group_proteins", "for:grouped[]", "C08_lookups_enumeration_independent: the body touches the entry `peptides[pep]` of its own key only"),
     ("read_fasta", "iter:prots", "`next(iter(prots))` is applied to one-element sets only (C16_unique_iff_one_group)"),
     ("read_fasta", "join:prots", "the order inside the '; '-joined value strings of shared_peptides does depend on the hash seed, but those strings reach no result file (picked_protein only tests key membership) and the C08 harness compares them as sets"),
-    ("read_fasta", "for:peps", "the enumeration of a protein's peptide set fixes only the KEY ORDER of the peptide -> proteins dictionary and hence of Proteins.peptide_map / shared_peptides; every enumeration of those maps is inventoried as a `map-order` effect and must be sorted or membership-only (rule below), so the key order reaches no result") ]
+    ("read_fasta", "for:peps", "C08_lookups_enumeration_independent / C08_key_order_follows_enumeration: the enumeration of a protein's peptide set fixes only the KEY ORDER of the peptide -> proteins dictionary and hence of Proteins.peptide_map / shared_peptides; every enumeration of those maps is inventoried as a `map-order` / `order-taint` effect and must be sorted or membership-only (rule below), so the key order reaches no result") ]
+
+/-- unsorted enumerations of containers whose order was fixed while a set was enumerated (kind `order-taint`),
+site by site, with the reason why the order goes no further than into containers that are inventoried again -/
+def orderTaintSites : List (String × String × String) :=
+  [ ("read_fasta", "for:peptides.items()", "fills unique_peptides / shared_peptides key by key (C08_lookups_enumeration_independent: content independent of the order); their key order is the order of this loop and is tracked on: they become Proteins.peptide_map / shared_peptides, whose enumerations are `map-order` entries"),
+    ("drop_missing_values_and_fill_spectra_dataframe", "raw:concat([na_mask, pd.DataFrame([feature.isna().any(axis=0)])])", "pd.concat keeps the (hash-ordered) columns of the mask; only `.any(axis=0)` per column is taken"),
+    ("drop_missing_values_and_fill_spectra_dataframe", "raw:list(na_mask[na_mask].index)", "the returned list of features with missing values is in hash order: its uses in read_percolator are inventoried"),
+    ("flatten", "raw:list(itertools.chain.from_iterable(split))", "keeps the order of its argument: the result is as ordered as the argument, and is tracked at the caller"),
+    ("flatten", "raw:from_iterable(split)", "as above"),
+    ("read_percolator", "for:features_to_drop", "drops the empty answers of the column slices (slice order is the submission order of joblib)"),
+    ("read_percolator", "for:features_to_drop#2", "log lines only; the feature columns are `[f for f in features if f not in features_to_drop]`: file order, membership test") ]
+
+/-- lists that joblib workers append to (kind `thread-order`): completion order -/
+def threadOrderSites : List (String × String × String) :=
+  [ ("get_rows_from_dataframe", "append:train_psms", "C08_completion_order_irrelevant (C05_materialise_invariant): the pieces are concatenated and re-indexed by the training index list"),
+    ("predict_fold", "append:scores", "one task per fold appends to its own fold's list, and the tasks of one chunk have all finished before the next chunk is submitted (C05)"),
+    ("drop_missing_values_and_fill_spectra_dataframe", "append:df_spectra_list", "only the one column slice that holds the spectrum columns appends (create_chunks_with_identifier never splits them), chunk after chunk inside a single task") ]
+
+/-- uses of the VALUES of a dictionary whose value strings list a set in hash order (kind `map-value`: anything
+but `.keys()` / `in` on `Proteins.shared_peptides`, whose values are `"; ".join(<set of groups>)`): none is allowed
+inside the observables of C08.  The one listed site is OUTSIDE them and is a known hash-seed dependence:
+`mokapot.to_flashlfq` copies these strings into the "Protein Accession" column, so that file differs between
+PYTHONHASHSEED values for shared peptides (reproduced with a hand-built confidence object; the objects made by
+`assign_confidence` no longer carry the attributes this writer needs, so no run of the pipeline reaches it). -/
+def outsideObservableSites : List (String × String × String) :=
+  [ ("_format_flashlfq", "shared_peptides:get", "FlashLFQ export: not an observable of C08 (brew / assign_confidence files / read_fasta maps), unreachable from assign_confidence; reported as a side finding") ]
 
 /-- functions that read a clock for log messages only -/
 def clockFuncs : List String := ["output_start_message", "output_end_message", "make_timer", "elapsed", "main"]
+
+def siteListed (sites : List (String × String × String)) (e : Effect) : Bool :=
+  sites.any (fun p => p.1 == e.func && p.2.1 == e.detail)
 
 /-- the accounting rule -/
 def accounted (e : Effect) : Bool :=
   if e.kind == "rng-new" then e.seeded                       -- `default_rng(seed)`: explicit seed/generator
   else if e.kind == "rng-draw" then true                     -- draw from an explicit Generator
-  else if e.kind == "df-sample" then e.seeded                -- `sample(..., random_state=rng)`
+  else if e.kind == "df-sample" then e.seeded                -- `sample(..., random_state=rng)` (not `random_state=None`)
   else if e.kind == "np-global" then
     (e.detail == "seed" && e.func == "main")                 -- CLI entry points seed the global state once
       || e.func == "_shuffle_proteins"                       -- make_decoys: not an observable of C08
-  else if e.kind == "set-order" then orderInvariantSites.any (fun p => p.1 == e.func && p.2.1 == e.detail)
+  else if e.kind == "set-order" then siteListed orderInvariantSites e
   else if e.kind == "map-order" then e.seeded                -- Proteins maps: `sorted(m.keys())` or `.isin(m.keys())` only
+  else if e.kind == "order-taint" then e.seeded || siteListed orderTaintSites e   -- sorted / counted / membership, or listed
+  else if e.kind == "dir-order" then e.seeded                -- directory listings: `sorted(glob(..))` or `len(list(glob(..)))` only
+  else if e.kind == "thread-order" then siteListed threadOrderSites e
+  else if e.kind == "map-value" then siteListed outsideObservableSites e   -- hash-ordered value strings: keys / membership only
   else if e.kind == "clock" then clockFuncs.contains e.func
   else false                                                 -- stdlib random, hash()/id(), parse errors, anything new
 
@@ -63,6 +108,30 @@ theorem C08_rule_rejects_unseeded :
     accounted ⟨"mokapot/parsers/fasta.py", "read_fasta", 1, "set-order", "for:something_new", false⟩ = false ∧
     -- the defect D25 repaired in /repo: the hash-ordered keys of peptide_map handed to the seeded shuffle
     accounted ⟨"mokapot/picked_protein.py", "group_without_decoys", 201, "map-order", "raw:peptide_map.keys", false⟩ = false := by decide
+
+/-- the inventory also contains the order sources added with the extension (directory listings, lists
+appended to by joblib workers, containers ordered by a set enumeration) — the rule is exercised on them -/
+theorem C08_inventory_nonvacuous_order :
+    (effects.any (fun e => e.kind == "dir-order")) = true ∧
+    (effects.any (fun e => e.kind == "thread-order")) = true ∧
+    (effects.any (fun e => e.kind == "order-taint")) = true ∧
+    (effects.any (fun e => e.kind == "map-order")) = true := by decide
+
+/-- the extended rule has teeth: an unsorted `glob` in the roll-up tool, a new list that workers append to, a
+second `list(set(..))` in a function that already has an accounted one, a raw enumeration of a container ordered
+by a set, a third loop over the hash-ordered list of dropped features, `random_state=None`, and a `for` over a
+Proteins map are all rejected -/
+theorem C08_rule_rejects_new_order_sources :
+    accounted ⟨"mokapot/brew_rollup.py", "do_rollup", 279, "dir-order", "raw:glob:*.targets.{}s{}", false⟩ = false ∧
+    accounted ⟨"mokapot/brew.py", "_fit_model", 1, "thread-order", "append:fitted", false⟩ = false ∧
+    accounted ⟨"mokapot/parsers/pin.py", "read_percolator", 1, "set-order", "tuple:set(features) - set(features_to_drop)", false⟩ = false ∧
+    accounted ⟨"mokapot/brew.py", "make_train_sets", 1, "set-order", "list:set(idx)", false⟩ = false ∧
+    accounted ⟨"mokapot/parsers/fasta.py", "read_fasta", 1, "order-taint", "raw:list(unique_peptides)", false⟩ = false ∧
+    accounted ⟨"mokapot/parsers/pin.py", "read_percolator", 1, "order-taint", "for:features_to_drop#3", false⟩ = false ∧
+    accounted ⟨"mokapot/utils.py", "groupby_max", 33, "df-sample", "df.sample", false⟩ = false ∧
+    accounted ⟨"mokapot/picked_protein.py", "group_with_decoys", 1, "map-order", "raw:peptide_map", false⟩ = false ∧
+    -- the value strings of shared_peptides (hash-ordered '; '-joined sets) used for a protein group
+    accounted ⟨"mokapot/picked_protein.py", "group_with_decoys", 1, "map-value", "shared_peptides:get", false⟩ = false := by decide
 
 /-- Feeding the models of one run back in any order: `brew` sorts them by their fold tag, so
 every permutation of a list with pairwise distinct tags yields the same model list. -/
@@ -89,5 +158,10 @@ theorem C08_groupby_max_seed_irrelevant_tiefree {α : Type} (le : α → α → 
     (hp1 : s1.Perm R) (hs1 : Picked.KeySorted le P s1) (hp2 : s2.Perm R) (hs2 : Picked.KeySorted le P s2) :
     (Picked.pickedOf P s1).Perm (Picked.pickedOf P s2) :=
   Picked.C15_seed_independent_when_tie_free le hle P R s1 s2 htf hp1 hs1 hp2 hs2
+
+/-! ## non-vacuity of the restated order facts -/
+
+/-- the models returned by `brew` carry the fold tags 1..k: pairwise distinct, and a fed-back list is a permutation -/
+example : (([3, 1, 2] : List Nat).map id).Nodup ∧ ([3, 1, 2] : List Nat).Perm [1, 2, 3] := by decide
 
 end Mk
